@@ -112,6 +112,19 @@ Section DMono.
   Qed.
 End DMono.
 
+Section FMono.
+  Variable structs : list sdef.
+  Variable gl args : list string.
+  Lemma floop_mono n cs locals c nx b : forall k V A vs r, floop structs gl args n k cs locals c nx b V A vs = Some r -> forall k', k <= k' -> floop structs gl args n k' cs locals c nx b V A vs = Some r.
+  Proof.
+    induction k as [|k IH]; intros V A vs r H k' Hle; [discriminate|]. destruct k' as [|k']; [lia|]. cbn [floop] in *.
+    destruct (teval structs gl args cs locals (mkfr V A) vs c) as [w| |]; try discriminate.
+    destruct (truthy (hp vs) w) as [[|]| |]; try discriminate; [|exact H].
+    destruct (bexec structs gl args n cs locals b V A vs) as [[[V1 A1] vs1]|]; [|discriminate].
+    destruct (bexec structs gl args 1 cs locals (TExpr nx) V1 A1 vs1) as [[[V2 A2] vs2]|]; [|discriminate]. apply (IH _ _ _ _ H). lia.
+  Qed.
+End FMono.
+
 Section SrcDo.
   Variable M : module.
   Variable G : genv.
